@@ -149,12 +149,25 @@ class Core:
         require(list(eq.lengths) == want_len, "comparison result lost the row structure", **ctx)
 
     # ---- steps ----------------------------------------------------------
+    def follow_widening(self):
+        """Writes of python lists / wider values make numpy widen a list of rows when it is concatenated (a[i] = [] turns
+        the flat data float64, a[i] = [1, 2] on int16 rows int64); which element type results is not compared (see
+        check()). When the array has widened, the model continues in that type, so that later arithmetic - whose
+        overflow behaviour depends on the type - is the same on both sides."""
+        ld = np.asarray(self.a._data).dtype
+        md = self.m[0].dtype if self.m else ld
+        if ld != object and ld != md and np.result_type(ld, md) == ld:
+            self.m = [r.astype(ld) for r in self.m]
+            self.dtype = ld.name
+
     def step(self, op):
         k = op["op"]
         if k == "init":
             self.init(op)
             self.check("init")
             return
+        if self.m is not None and self.a is not None:
+            self.follow_widening()
         self.kinds.append(k)
         before = [r.copy() for r in self.m]
         try:
